@@ -37,9 +37,10 @@ structure Obs15 where
 /-- the statement's preconditions: finite numbers, naive datetimes (not dates) in Date parameters -/
 def applicable15 (st : List (Param × PyVal)) : Bool :=
   st.all fun (p, v) =>
-    -- a state the Parameter's own validator rejects (the unvalidated `None` default of a
-    -- Selector that does not allow None) is not a valid state
-    p.validB v &&
+    -- validity of a state is decided by the real code accepting it (the harness reports a rejected
+    -- constructor call); the one state the code never validates is the `None` default, which is a
+    -- valid state only if the Parameter's own validator would take it
+    (match v with | .none => p.validB .none | _ => true) &&
     v.finite && (match p.cfg, v with
                  | .date, .date .. => false
                  | _, _ => true)
